@@ -57,6 +57,7 @@ class Config:
         self.truth_hook = None    # fn(I, value) -> bool|z3|NotImplemented
         self.log_names = {"LOGGER"}
         self.havoc_loops = False  # allow generic havoc schema for loops without a spec
+        self.ext_opaque = ()      # dotted-name prefixes of external callables modelled as "traced, opaque result, may not raise"
         self.ob_prefix = ""       # property prefix of engine-generated obligations (loop contracts), e.g. "C03/"
 
 
@@ -109,6 +110,7 @@ class Interp:
         self._module_ns = {}
         self._loop_ord_cache = {}
         self.path_errors = []
+        self._fparts = {}
         self.begin_path([])
 
     # ------------------------------------------------------------------ path management
@@ -223,12 +225,32 @@ class Interp:
         if f is not None:
             self.solver.push()
             self.solver.add(f)
-        r = self.solver.check()
+        try:
+            r = self.solver.check()
+        except z3.Z3Exception:
+            r = z3.unknown
         if f is not None:
             self.solver.pop()
         self.solver_ms += (_time.perf_counter() - t0) * 1000
         self.queries += 1
         return r != z3.unsat
+
+    def concretize(self, e):
+        """python int c if the path condition forces e == c, else None"""
+        if isinstance(e, int):
+            return e
+        s_ = z3.simplify(e, som=True)
+        if z3.is_int_value(s_):
+            return s_.as_long()
+        try:
+            if self.solver.check() != z3.sat:
+                return None
+            c = self.solver.model().eval(e, model_completion=True)
+        except z3.Z3Exception:
+            return None
+        if not z3.is_int_value(c):
+            return None
+        return c.as_long() if self.valid(e == c) else None
 
     def valid(self, f):
         """True iff pc => f is proved."""
@@ -281,12 +303,21 @@ class Interp:
                 if not self.feasible():
                     rec = ObRecord(oid, "discharged", "z3", 0.0, self.decisions, None, detail, "path infeasible")
                 else:
-                    rec.model = self._model_of(self.solver.model())
+                    try:
+                        rec.model = self._model_of(self.solver.model())
+                    except z3.Z3Exception:
+                        rec.model = {}
             self.records.append(rec)
             return rec.status == "discharged"
         self.solver.push()
         self.solver.add(z3.Not(formula))
-        r = self.solver.check()
+        if smt.has_strings(formula) or any(smt.has_strings(c) for c in self.pc):
+            r = z3.unknown       # string goals go to the external solvers (hard time limits)
+        else:
+            try:
+                r = self.solver.check()
+            except z3.Z3Exception:
+                r = z3.unknown
         model = None
         backend = "z3"
         if r == z3.sat:
@@ -1192,6 +1223,7 @@ class Interp:
                 parts.append(str(v.value))
             else:
                 val = self.eval(v.value, fr)
+                self._fparts[id(v)] = val
                 if isinstance(val, (int, str, bool, float, bytes, type(None))) and v.format_spec is None and v.conversion == -1:
                     parts.append(str(val))
                 else:
@@ -1207,8 +1239,27 @@ class Interp:
                             self.raise_("TypeError", "unsupported format string passed to NoneType.__format__")
                     sym = True
         if sym:
+            # value kept only when every interpolated part is itself a string (needed by path-building code);
+            # otherwise the string VALUE is dropped (fresh symbol), sub-expressions were still evaluated
+            zparts = []
+            ok = True
+            for v in n.values:
+                if isinstance(v, ast.Constant):
+                    zparts.append(z3.StringVal(str(v.value)))
+                else:
+                    val = self.eval_cached_fpart(v, fr)
+                    if v.format_spec is None and v.conversion == -1 and self.kind_of(val) == "str":
+                        zparts.append(self.z(val))
+                    else:
+                        ok = False
+                        break
+            if ok and zparts:
+                return SV(z3.Concat(zparts) if len(zparts) > 1 else zparts[0], "str")
             return self.fresh("str", "fstr")
         return "".join(parts)
+
+    def eval_cached_fpart(self, v, fr):
+        return self._fparts.get(id(v))
 
     def e_FormattedValue(self, n, fr):
         return self.e_JoinedStr(ast.JoinedStr(values=[n]), fr)
@@ -1319,6 +1370,8 @@ class Interp:
         return self.index(v, idx)
 
     def index(self, v, idx):
+        if type(idx).__name__ == "SliceVal":
+            return self.slice(v, idx.lo, idx.hi, idx.step)
         if isinstance(v, ByteArr):
             v = v.v
         if hasattr(v, "sym_index"):
@@ -1391,6 +1444,15 @@ class Interp:
         if hasattr(v, "sym_slice"):
             r = v.sym_slice(self, lo, hi, st)
             return wrap(r) if wrap else r
+        if isinstance(v, Env):
+            if self.cfg.env_call is not None:
+                r = self.cfg.env_call(self, v, "__getitem__", [("slice", lo, hi, st)], {})
+                if r is not NotImplemented:
+                    return r
+            key = ("slice", repr(lo), repr(hi), repr(st))
+            if key not in v.data:
+                v.data[key] = Env(f"{v.path}[{lo!r}:{hi!r}]"[:80])
+            return v.data[key]
         if st is not None and st != 1:
             if isinstance(v, (list, tuple, str, bytes)) and all(not isinstance(x, SV) for x in (lo, hi, st)):
                 return v[lo:hi:st]
